@@ -59,6 +59,8 @@ fn pick_tol_shift(job: &Job) -> (f64, f64) {
         }
         // no shift (zero-sum targets stay zero-sum)
         "noshift" => (mc::pick(&TOLS), 0.0),
+        // no shift, default tolerance only
+        "noshift1" => (TOLS[0], 0.0),
         other => panic!("unknown cfg set {}", other),
     }
 }
@@ -286,9 +288,9 @@ impl Harness for C08 {
             lattice_jobs(&mut jobs, "lasso", 2, 3, 4, 3, "full", "free", false);
             lattice_jobs(&mut jobs, "enet", 2, 3, 4, 3, "noshift", "zerosum", false);
             lattice_jobs(&mut jobs, "lasso", 2, 4, 3, 4, "diag", "free", false);
-            lattice_jobs(&mut jobs, "enet", 2, 4, 3, 4, "noshift", "zerosum", false);
+            lattice_jobs(&mut jobs, "enet", 2, 4, 3, 4, "noshift1", "zerosum", false);
             lattice_jobs(&mut jobs, "lasso", 3, 4, 2, 5, "diag", "free", false);
-            lattice_jobs(&mut jobs, "enet", 3, 4, 2, 5, "noshift", "zerosum", false);
+            lattice_jobs(&mut jobs, "enet", 3, 4, 2, 5, "noshift1", "zerosum", false);
         }
         // ---- structured families (p <= 6, n <= 60)
         let fam_ns = |p: usize| -> Vec<usize> {
@@ -310,11 +312,11 @@ impl Harness for C08 {
         lattice_jobs(&mut jobs, "enet", 1, 2, 4, 1, "diag", "free", true);
         if t {
             lattice_jobs(&mut jobs, "enet", 1, 3, 4, 2, "diag", "free", true);
-            lattice_jobs(&mut jobs, "enet", 2, 3, 3, 3, "diag", "zerosum", true);
+            lattice_jobs(&mut jobs, "enet", 2, 3, 2, 2, "diag", "zerosum", true);
         }
         for fam in 0..families::N_FAMILIES {
-            for p in 1..=(if t { 4usize } else { 2 }) {
-                let ns: Vec<usize> = if t { vec![p + 1, p + 2, 12, 31, 60] } else { vec![p + 1, 12] };
+            for p in 1..=(if t { 3usize } else { 2 }) {
+                let ns: Vec<usize> = if t { vec![p + 1, 12, 60] } else { vec![p + 1, 12] };
                 jobs.push(Job::new(format!("enet-watched-family{}-p{}-shifted", fam, p), json!({"kind": "fam", "est": "enet", "fam": fam, "p": p, "ns": ns, "cfg": "diag", "zero_mean": true, "watch": true})));
             }
         }
